@@ -182,6 +182,8 @@ def check(v, prop, families, extra_clause_props=(), also=()):
     res, stats = trace.validate(traces)
     t2 = time.time()
     mine = (prop,) + tuple(extra_clause_props)
+    # clauses of other properties that count as violations of `prop` in the scenarios of one family (family dict key 'also')
+    fam_also = {(fam['family'], json.dumps(fam.get('knobs', {}), sort_keys=True)): tuple(fam.get('also', ())) for fam in families}
     others = {}
     nfail = 0
     sigs = set()
@@ -193,7 +195,7 @@ def check(v, prop, families, extra_clause_props=(), also=()):
                           'scenario did not run to quiescence (%s)' % s['status'], _replay(s))
         for clause, idx in fs:
             p = clause.split('.')[0]
-            if p in mine or clause in also:
+            if p in mine or clause in also or clause in fam_also.get((s['family'], json.dumps(s.get('knobs', {}), sort_keys=True)), ()):
                 e, sig = _ctx(s, idx)
                 nfail += 1
                 v.add_failure(clause, sig, 'family=%s scenario=%d event#%d %s' % (s['family'], s['tid'], idx, _brief(e)),
